@@ -110,6 +110,97 @@ fn interned_cases() {
     let _ = std::panic::take_hook();
 }
 
+/// types that are not PartialEq / Debug, or whose equality is by content: round trip compared through a projection
+fn rt_via<T: Encode + Decode, P: PartialEq + Debug>(kind: &str, v: &T, proj: &dyn Fn(&T) -> P) {
+    unsafe { COUNT += 1 };
+    let plugin = Plugin::new();
+    let shown = format!("{:?}", proj(v));
+    let bytes = match qbice_serialize::postcard::encode(v, &plugin) { Ok(b) => b, Err(e) => report_found(kind, &shown, &format!("encode error {e}"), "Ok") };
+    let mut ext = bytes.clone();
+    ext.extend_from_slice(&[0xA5, 0x5A]);
+    let mut dec = qbice_serialize::PostcardDecoder::new(&ext[..]);
+    let r: std::io::Result<T> = qbice_serialize::Decoder::decode(&mut dec, &plugin);
+    match r {
+        Ok(w) => {
+            if proj(&w) != proj(v) { report_found(kind, &shown, &format!("{:?} (bytes {bytes:?})", proj(&w)), &shown); }
+            let rest: &[u8] = dec.into_inner();
+            if rest != &[0xA5u8, 0x5A][..] { report_found(kind, &shown, &format!("decoder left {} bytes, bytes {bytes:?}", rest.len()), "exactly the 2 sentinel bytes"); }
+        }
+        Err(e) => report_found(kind, &shown, &format!("decode error {e} (bytes {bytes:?})"), "Ok"),
+    }
+}
+fn other_std_types(rng: &mut Rng) {
+    use std::borrow::Cow;
+    use std::cell::{Cell, RefCell};
+    use std::path::{Path, PathBuf};
+    use std::sync::atomic::*;
+    for text in ["", "a", "héllo", &"y".repeat(128), &"z".repeat(300)] {
+        rt(&format!("Box<str> len {}", text.len()), &Box::<str>::from(text));
+        rt(&format!("Rc<str> len {}", text.len()), &Rc::<str>::from(text));
+        rt(&format!("Arc<str> len {}", text.len()), &Arc::<str>::from(text));
+        rt("(Box<str>, u8, Arc<str>) back to back", &(Box::<str>::from(text), 9u8, Arc::<str>::from(text)));
+        rt_via("Cow<str> owned", &Cow::<str>::Owned(text.to_string()), &|c| c.to_string());
+        rt_via("Cow<str> borrowed (static)", &Cow::<str>::Borrowed("static text"), &|c| c.to_string());
+        rt_via("RefCell<String>", &RefCell::new(text.to_string()), &|c| c.borrow().clone());
+        rt(&format!("Box<Path> {text:?}"), &PathBuf::from(text).into_boxed_path());
+        rt(&format!("Arc<Path> {text:?}"), &Arc::<Path>::from(PathBuf::from(text)));
+        rt(&format!("Rc<Path> {text:?}"), &Rc::<Path>::from(PathBuf::from(text)));
+        rt(&format!("(PathBuf, PathBuf) {text:?}"), &(PathBuf::from(text), PathBuf::from("/x").join(text)));
+    }
+    rt_via("Cow<[u32]> owned", &Cow::<[u32]>::Owned(vec![1, 1 << 21, u32::MAX]), &|c| c.to_vec());
+    rt_via("Cow<Vec<u8>>", &Cow::<Vec<u8>>::Owned(vec![0, 128, 255]), &|c| c.to_vec());
+    for _ in 0..40 {
+        let x = rng.next();
+        rt_via("Cell<u64>", &Cell::new(x), &|c| c.get());
+        rt_via("RefCell<(u32, i64)>", &RefCell::new((x as u32, x as i64)), &|c| *c.borrow());
+        rt_via("AtomicBool", &AtomicBool::new(x & 1 == 1), &|a| a.load(Ordering::SeqCst));
+        rt_via("AtomicU8", &AtomicU8::new(x as u8), &|a| a.load(Ordering::SeqCst));
+        rt_via("AtomicI8", &AtomicI8::new(x as i8), &|a| a.load(Ordering::SeqCst));
+        rt_via("AtomicU16", &AtomicU16::new(x as u16), &|a| a.load(Ordering::SeqCst));
+        rt_via("AtomicI16", &AtomicI16::new(x as i16), &|a| a.load(Ordering::SeqCst));
+        rt_via("AtomicU32", &AtomicU32::new(x as u32), &|a| a.load(Ordering::SeqCst));
+        rt_via("AtomicI32", &AtomicI32::new(x as i32), &|a| a.load(Ordering::SeqCst));
+        rt_via("AtomicU64", &AtomicU64::new(x), &|a| a.load(Ordering::SeqCst));
+        rt_via("AtomicI64", &AtomicI64::new(x as i64), &|a| a.load(Ordering::SeqCst));
+        rt_via("AtomicUsize", &AtomicUsize::new(x as usize), &|a| a.load(Ordering::SeqCst));
+        rt_via("AtomicIsize", &AtomicIsize::new(x as isize), &|a| a.load(Ordering::SeqCst));
+        rt_via("(AtomicU16, AtomicI64) back to back", &(AtomicU16::new(x as u16), AtomicI64::new(-(x as i64 >> 3))), &|a| (a.0.load(Ordering::SeqCst), a.1.load(Ordering::SeqCst)));
+    }
+    for v in [0u64, 127, 128, 16383, 16384, u64::MAX] { rt_via("AtomicU64 boundary", &AtomicU64::new(v), &|a| a.load(Ordering::SeqCst)); rt_via("AtomicI64 boundary", &AtomicI64::new(-(v as i64)), &|a| a.load(Ordering::SeqCst)); }
+    rt("PhantomData<u8>", &std::marker::PhantomData::<u8>);
+    rt("[u8;0]", &[0u8; 0]);
+    rt("[u16;33]", &{ let mut a = [0u16; 33]; for (i, x) in a.iter_mut().enumerate() { *x = (i as u16) << 9; } a });
+    rt("[[u8;2];3]", &[[1u8, 2], [3, 4], [128, 255]]);
+    rt("[String;2]", &["a".to_string(), "".to_string()]);
+    rt("RangeFull", &(..));
+    // concurrent collections: compared by content
+    {
+        let dm: dashmap::DashMap<u32, String> = (0..40u32).map(|i| (i * 1000, format!("v{i}"))).collect();
+        rt_via("DashMap<u32,String>", &dm, &|m| m.iter().map(|e| (*e.key(), e.value().clone())).collect::<BTreeMap<_, _>>());
+        rt_via("DashMap empty", &dashmap::DashMap::<u32, String>::new(), &|m| m.len());
+        let ds: dashmap::DashSet<i64> = [-1i64, i64::MIN, 1 << 40, 0].into_iter().collect();
+        rt_via("DashSet<i64>", &ds, &|s| s.iter().map(|e| *e).collect::<BTreeSet<_>>());
+        rt_via("(DashSet<i64>, u8) back to back", &(ds.clone(), 7u8), &|s| (s.0.iter().map(|e| *e).collect::<BTreeSet<_>>(), s.1));
+    }
+    // maps / sets with exactly 127 / 128 / 129 entries (length-prefix boundary) and nested collections
+    for n in [0usize, 1, 127, 128, 129] {
+        let hm: HashMap<u16, u16> = (0..n as u16).map(|i| (i, i.wrapping_mul(257))).collect();
+        rt(&format!("HashMap with {n} entries"), &hm);
+        let bm: BTreeMap<u16, Vec<u8>> = (0..n as u16).map(|i| (i, vec![i as u8; (i % 3) as usize])).collect();
+        rt(&format!("BTreeMap with {n} entries"), &bm);
+        let hs: HashSet<u32> = (0..n as u32).map(|i| i << 7).collect();
+        rt(&format!("HashSet with {n} entries"), &hs);
+        let bs: BTreeSet<i32> = (0..n as i32).map(|i| -i * 129).collect();
+        rt(&format!("BTreeSet with {n} entries"), &bs);
+        let ll: LinkedList<u8> = (0..n).map(|i| i as u8).collect();
+        rt(&format!("LinkedList with {n} entries"), &ll);
+        let vd: VecDeque<u16> = (0..n as u16).collect();
+        rt(&format!("VecDeque with {n} entries"), &vd);
+    }
+    rt("Vec<HashMap<u8,Vec<Option<String>>>>", &vec![HashMap::from([(1u8, vec![None, Some("x".to_string())])]), HashMap::new()]);
+    rt("BTreeMap<String,BTreeSet<(u8,i8)>>", &BTreeMap::from([("k".to_string(), BTreeSet::from([(1u8, -1i8), (2, 0)])), (String::new(), BTreeSet::new())]));
+}
+
 fn nested<T: Encode + Decode + PartialEq + Debug + Clone>(kind: &str, a: &T, b: &T) {
     rt(&format!("{kind}"), a);
     rt(&format!("Option<{kind}>"), &Some(a.clone()));
@@ -301,6 +392,7 @@ fn main() {
         nested("derive Either<u32,String>", &Either::<u32, String>::L(1 << 21), &Either::<u32, String>::R("x".into()));
         nested("derive Either<u32,String>", &Either::<u32, String>::N, &Either::<u32, String>::L(0));
     }
+    other_std_types(&mut rng);
     interned_cases();
     report_none(unsafe { COUNT });
 }
